@@ -506,12 +506,8 @@ pub fn exec(line: &str, rec: &mut Recorder) {
         }
         Ok(None) => rec.stat("skipped.unparsable-case"),
         Err(p) => {
-            // `vkp` lines have no model side; open known finding: decode_public_key() debug_assert!s that the
-            // DNSKEY's algorithm is supported — in a build with debug assertions a DNSKEY + RRSIG pair of an
-            // unsupported algorithm panics the validator instead of being Bogus
-            let unsupported_key_alg = t.get(0) == Some(&"vkp")
-                && t.get(3).and_then(|k| k.split(';').nth(2)).and_then(|a| a.parse::<u8>().ok()).map(|a| !Algorithm::from_u8(a).is_supported()).unwrap_or(false);
-            let class = if unsupported_key_alg && p.contains("algorithm.is_supported()") { "debug-assert-unsupported-algorithm" } else { "" };
+            // `vkp` lines have no model side (unsupported-algorithm family, repaired in /repo 2009bea: must-not-panic regression)
+            let class = "";
             let out = if t[0] == "vkp" { "~".to_string() } else { format!("panic {p}") };
             if out == "~" {
                 rec.impl_only += 1;
